@@ -38,7 +38,9 @@ def run(c):
         "table state inside the login's interval",
         "one authentication provider behind SASLAuth (the loop over several providers is not modelled); the credentials table itself does not fail (in-memory table)",
         "submission gate: the command sequencing of go-smtp's Conn (EHLO/AUTH/MAIL/RCPT/DATA/RSET) is modelled together with Session.Mail; a second EHLO inside an open transaction is not generated "
-        "(it replaces the Session while the Conn keeps its transaction state; outside C14)",
+        "(it replaces the Session while the Conn keeps its transaction state; outside C14); the pipeline's early checks are an input of the model (Cmd.ehlo v: what they answer if the greeting runs them, as the reply code "
+        "wrapErr derives); in the model, as in the code, only the greeting that creates the session runs them",
+        "the LOGIN server (internal/auth/sasllogin) is modelled as a state machine over the client's responses (LoginSrv.next); responses are byte strings handed over unchanged (C14_login_server_hands_over_the_responses)",
     ]
     c.trusted_base += [
         "golang.org/x/crypto bcrypt/argon2, crypto/sha256 (symbolic in the model), golang.org/x/text/secure/precis (parameter), emersion/go-sasl PLAIN framing, foxcpp/go-smtp command loop (modelled, checked differentially)",
@@ -59,12 +61,17 @@ def run(c):
         "(1b) overlapping logins inside the histories: 2-4 logins (PLAIN/LOGIN/direct; right, wrong, previous, another account's password; mostly one account) held inside their hash verification or right after "
         "reading their row so that they are in flight together, with set-password / delete / delete+create of the account in between, finished in any order or released together; each verdict must be right for some "
         "table state inside that login's interval. "
-        "(2) SMTP command sequences of 1-14 commands (plausible sessions with commands dropped/duplicated/moved, and random ones) against real submission and smtp endpoints over TCP, reply codes compared with the model. "
+        "(1c) user names and passwords inside white space / control characters / wrapping (space, tab, CR, LF, CRLF, NBSP, U+3000 and other Unicode spaces, zero-width characters, NUL over LOGIN, quotes, angle brackets, trailing dot) "
+        "around spellings of EXISTING accounts, mostly with the account's current password, over PLAIN, LOGIN (the real sasllogin server, with and without initial response) and the table directly, and as names of management calls: "
+        "the reference resolution decides (PRECIS refuses most of them: no account, the login must fail); the identity and user name handed to the success callback must be the name as sent; every credential pair also goes through the other mechanism. "
+        "(2) SMTP command sequences of 1-14 commands (plausible sessions with commands dropped/duplicated/moved, and random ones) against real submission and smtp endpoints over TCP, reply codes compared with the model; "
+        "the endpoints carry a scripted early (connection-level) check whose verdict is set per command (passes at the greeting and turns into a rejection / temporary failure / plain error from the first AUTH on, at one AUTH only, from a random command on; "
+        "bad at the first greeting(s) with a client that carries on or greets again; random), AUTH with the account's name inside white space; the monitor flags MAIL/RCPT/DATA answered < 400 or a delivered message before any AUTH answered 235, and a 235 for anything but the account's exact credentials. "
         "(3) call skeletons of the anchored functions re-derived from the current sources and compared with the expectation the model was written from. distinct = distinct op lines",
         explanation="theorems over all histories, names, passwords, schemes, hash parameters, salts and CPU counts of the verifying process, normalisation functions and user-name maps (no hypothesis on them); "
         "the table with full rows (scheme, parameters, salt, key) refines the table of (scheme, password) rows for histories of any length (C14_params_refine), verification succeeds iff password and parameters-as-stored "
         "reproduce the stored key (C14_verify_iff_reproduces_stored_key, C14_verify_computed_row, C14_other_parameters_other_key); over all interleavings of overlapping logins with management "
-        "(a login's verdict is the sequential verdict at the point where it read its row, independent of the other logins); default normalisation addresses the account management addresses; gate theorem over all command sequences; "
+        "(a login's verdict is the sequential verdict at the point where it read its row, independent of the other logins); default normalisation addresses the account management addresses; gate theorem over all command sequences and all verdicts of the early checks (an AUTH that is not answered 235 changes nothing: C14_unsuccessful_auth_changes_nothing); LOGIN over the wire = the LOGIN closure on the responses as sent (C14_login_via_server, C14_login_wire_ok_iff); "
         "model tied to the code by differential runs of whole histories / sessions and by regenerated call skeletons",
         search=search,
     )
